@@ -38,3 +38,31 @@ Print Assumptions C05_sub_blocks.
 Print Assumptions C05_callers_exact.
 Print Assumptions C05_return_point.
 Print Assumptions C05_function_graph_wf.
+
+(* ------------------------------------------------------------------------------------------------------------
+   Extension (second round): theorems from Lemmas/{WalkLemmas,OutputLemmas,TypeExec,NoMiss2,ParseLemmas2,PaddingLemmas}.v *)
+From Coq Require Import List String NArith ZArith Bool Arith.
+From Tealer Require Import Tables Leaves LeafPrelude Syntax Parse Cfg StackAst Keys Analysis Domains Detect Group Output Runs Eval Exec InsExec Paths WalkLemmas OutputLemmas TypeExec NoMiss2 ParseLemmas2 PaddingLemmas.
+
+(* call-graph export: an edge f -> g exactly when a retained callsub block of routine f targets g *)
+Theorem C05_callgraph_edges :
+  forall (p : prog) (t : teal),
+       parse_teal p = Ok t ->
+       forall fn g : string,
+       In (fn, g) (callgraph_edges t) <->
+       (exists (c : nat) (b : block) (r : subroutine),
+          tblock t c = Some b /\ exit_op t b = Some (ICallsub g) /\ sub_of_block t c = Some r /\ s_name r = fn).
+Proof. exact @callgraph_edges_exact. Qed.
+
+Theorem C05_callgraph_edges_structured :
+  forall (p : prog) (t : teal),
+       parse_teal p = Ok t ->
+       forall fn g : string,
+       GraphWf.struct_ok t ->
+       In (fn, g) (callgraph_edges t) <->
+       (exists (r : subroutine) (c : nat) (b : block),
+          routine t r /\ s_name r = fn /\ In c (s_blocks r) /\ tblock t c = Some b /\ exit_op t b = Some (ICallsub g)).
+Proof. exact @callgraph_edges_struct. Qed.
+
+Print Assumptions C05_callgraph_edges.
+Print Assumptions C05_callgraph_edges_structured.
